@@ -321,7 +321,7 @@ def describe():
     return dict(
         rule=("Hypothesis-generated E1 histories (all five sampler classes; steps, advances, exchanges installing foreign "
               "points, save/load restarts) with seeded burn/thin/interval/sample-count queries after every operation, including "
-              "burn >= length, burn = length-1 and thin > length. Model = rows read at burn=0, thin=1. Non-trivial = at least one "
+              "burn >= length, burn = length-1, thin > length, burn up to 2047 / thin up to 333 and chains of more than 4096 rows. Model = rows read at burn=0, thin=1. Non-trivial = at least one "
               "read-out query on a chain that took at least one step; distinct = distinct scenario digest."),
         real_vs_stub=dict(real=["get_sample/get_parameter/get_probabilities/get_interval/get_marginal of every sampler class",
                                 "GaussianKDE constructor", "save/load", "tempering_process (update_position path)"],
